@@ -587,6 +587,7 @@ impl<'tcx> Cx<'tcx> {
         let exp = span.from_expansion();
         // outermost macro name, and the call-site location of the expansion
         let mut mac = None;
+        let mut local_macro = false;
         let mut s = span;
         if exp {
             let mut cur = span;
@@ -597,6 +598,11 @@ impl<'tcx> Cx<'tcx> {
                 }
                 if let rustc_span::ExpnKind::Macro(_, name) = ed.kind {
                     mac = Some(name.to_string());
+                    // code generated by a macro of the analysed crate is ordinary crate code: it gets no macro tag
+                    // (the tag makes rules skip what std / log macros expand to)
+                    if ed.macro_def_id.map(|d| d.is_local()).unwrap_or(false) {
+                        local_macro = true;
+                    }
                 } else {
                     mac.get_or_insert_with(|| format!("{:?}", ed.kind));
                 }
@@ -613,8 +619,8 @@ impl<'tcx> Cx<'tcx> {
             "\"file\":{},\"line\":{},\"exp\":{},\"macro\":{}",
             esc(&file),
             loc.line,
-            exp,
-            opt_str(mac)
+            exp && !local_macro,
+            opt_str(if local_macro { None } else { mac })
         )
     }
 
